@@ -127,6 +127,42 @@ def callers_of_one_node(rec, shard):
             w.close()
 
 
+def watchdogs_of_one_pass(rec, shard):
+    """Two or three connections become idle in the same timer pass: the node's watchdog requests, as they appear on
+    the wire, bear distinct end-to-end identifiers and, per connection, the successor of that connection's previous
+    hop-by-hop identifier is not required - distinctness and non-zero are."""
+    from dv import world as W
+    for npeers in (2, 3):
+        case = {"watchdogs_of_one_pass": npeers}
+        w = W.NodeWorld({"peers": [{"name": f"peer{i + 1}.example", "ip": [f"10.1.1.{i + 1}"]} for i in range(npeers)],
+                         "apps": [{"app_id": 4, "auth": True, "peers": list(range(npeers)), "handler": "answer"}],
+                         "node_timers": {"idle": 2, "dwa": 50, "cer": 50, "cea": 50, "wakeup": 1}})
+        try:
+            w.start()
+            conns = [w.handshake_in(f"peer{i + 1}.example", auth=[4], ip=f"10.1.1.{i + 1}", hbh=0x100 + i) for i in range(npeers)]
+            seen = []
+            for rnd in range(3):
+                w.advance(4)
+                for i, c in enumerate(conns):
+                    for f in c.refresh():
+                        if f.is_request and f.code == 280 and (i, f.h["hbh"], f.h["e2e"], f.t) not in seen:
+                            seen.append((i, f.h["hbh"], f.h["e2e"], f.t))
+                            w.feed_msg(c, {"k": "DWA", "host": f"peer{i + 1}.example", "hbh": f.h["hbh"], "e2e": f.h["e2e"]})
+            e2es = [e for _, _, e, _ in seen]
+            if len(set(e2es)) != len(e2es) or 0 in e2es:
+                rec.violation("C16/e2e/duplicate-among-watchdog-requests", case,
+                              f"DWRs on the wire (connection, hop-by-hop, end-to-end, time): {[(i, hex(h), hex(e), t) for i, h, e, t in seen]}")
+            for i in range(npeers):
+                hbhs = [h for j, h, _, _ in seen if j == i]
+                if len(set(hbhs)) != len(hbhs) or 0 in hbhs:
+                    rec.violation("C16/seq/duplicate-among-watchdog-requests", case, f"connection {i}: hop-by-hop ids {[hex(h) for h in hbhs]}")
+            same_pass = len({t for _, _, _, t in seen}) < len(seen)
+            rec.case(sha("wd", npeers, shard), ["e2e:watchdogs-of-one-pass" if same_pass else "e2e:watchdogs-staggered"],
+                     sample=lambda: dict(case, dwrs=len(seen)))
+        finally:
+            w.close()
+
+
 def ids_of(kind, results):
     flat = [v for r in results for v in r]
     if kind == "sess":
@@ -220,6 +256,8 @@ def shard_main(shard, nshards, tier, scale):
 
     if shard == 2 % nshards:
         callers_of_one_node(rec, shard)
+    if shard == 3 % nshards:
+        watchdogs_of_one_pass(rec, shard)
 
     # random schedules beyond the bound
     n_rand = int((4000 if thorough else 300) * scale)
@@ -324,7 +362,7 @@ def run(tier, scale=1.0):
     for d in hyp.pool_run(shard_main, (tier, scale)):
         rec.merge(d)
     required = {"gen:seq": 1, "gen:sess": 1, "deviations:3": 1, "wrap": 1, "random-schedule": 1,
-                "sequential:wraps": 1, "sequential:low-to-high-carry": 1, "e2e:callers-of-one-node": 1, "e2e-init": 1, "session-format": 1, "threads:3": 1}
+                "sequential:wraps": 1, "sequential:low-to-high-carry": 1, "e2e:callers-of-one-node": 1, "e2e:watchdogs-of-one-pass": 1, "e2e-init": 1, "session-format": 1, "threads:3": 1}
     return finish(rec, tier=tier, level="exploration", rule=RULE, assumptions=ASSUME, t0=t0,
                   exhaustive=True, required_classes=required,
                   extra_cov={"exhaustive_part": "all schedules with <= 3 deviations (<= 2 for the largest 3-thread configurations in quick) for every listed configuration"})
